@@ -34,6 +34,18 @@ class EB(BaseException):
         self.id = id
 
 
+class EF(E):
+    """an exception that is falsy (an empty error collection): an exception all the same"""
+
+    def __len__(self):
+        return 0
+
+
+class EBF(EB):
+    def __len__(self):
+        return 0
+
+
 class EnterFails(AttributeError):      # (an AttributeError: the library handles that type itself when it looks up __aexit__)
     pass
 
@@ -61,7 +73,8 @@ class Entry:
         b = self.on_none if ev is None else self.on_exc
         if b == "raise":
             # odd entries fail with a BaseException that is not an Exception
-            exc = (EB if self.id % 2 else E)(1000 + self.id * 2 + (0 if ev is None else 1))
+            # every third entry fails with a *falsy* exception (one with an empty __len__): an exception in flight all the same
+            exc = ((EBF if self.id % 3 == 0 else EB) if self.id % 2 else (EF if self.id % 3 == 0 else E))(1000 + self.id * 2 + (0 if ev is None else 1))
             if ev is not None and self.id % 4 == 2 and self.kind not in ("acb", "scb"):
                 # with an exception in flight the exit's result is tested for truth: the failure may come from that test
                 return RaisesWhenTested(exc)
